@@ -340,6 +340,11 @@ func udpKeyConfigs() []srv.Cfg {
 		}
 		out = append(out, srv.Cfg{Legacy: leg})
 	}
+	// legacy format with several ports (every port has a key list of its own), grouped and interleaved
+	out = append(out,
+		srv.Cfg{Legacy: []srv.Legacy{{Key: universe[0], Port: 9005}, {Key: universe[1], Port: 9006}}},
+		srv.Cfg{Legacy: []srv.Legacy{{Key: universe[3], Port: 9007}, {Key: universe[0], Port: 9005}, {Key: universe[4], Port: 9007}, {Key: universe[1], Port: 9006}}},
+	)
 	// two services, the second one repeating a secret of the first under another cipher
 	out = append(out, srv.Cfg{Services: []srv.Svc{
 		{Listeners: udp, Keys: keys(1, 0)},
